@@ -263,4 +263,7 @@ def run(repo, tier) -> Result:
     from ..ownership import check_hexital_purge
 
     check_hexital_purge("C08", res, repo)
+    from ..framework_rules import check_settings_kept
+
+    check_settings_kept("C08", res, repo)
     return res
